@@ -56,6 +56,15 @@ CLAIMED = {
         "last); tied by deep type inspection of all 11 PyWrapper methods vs the raw client against agents holding every value kind",
         "TimeTicks.pythonize goes through float division, modelled as exact (see C17)",
     ),
+    "C16": (
+        "proof: tablify (as table/bulktable call it) proved for every binding list below the entry: succeeds, one row per "
+        "distinct index suffix with the full suffix under key '0', every binding's value in its row under its column, every "
+        "value cell comes from a binding (nothing from outside); lifted to every sorted agent database (C16_table_of_db); "
+        "table(entry) and bulktable(table) agree for SMI tables; the single-root walk of C01 is proved to yield exactly the "
+        "instances below the entry; tied by unit tablify + e2e tables (raw, bulk, pythonic) with a database oracle",
+        "row ids / column keys are compared as tuples / numbers (string rendering assumed injective); the bulk walk's yields are "
+        "tied to the model by correspondence (C02), not by theorem; SMI guards: columns >= 1, nothing below the table outside entry .1",
+    ),
     "C18": (
         "proof: exit of a reconfigure block restores config and message-processing instance exactly (normal, exceptional, "
         "inner configure failing, any nesting depth, permanent configure inside), whole programs without a top-level configure "
